@@ -2187,15 +2187,42 @@ def derive_chain(M):
 
 
 class _Dissect(Flow):
-    """symbolic run of dissect: which part of the key each returned component is"""
+    """symbolic run of dissect: which part of the key each returned component is, and under which membership facts
+
+    The state is the local environment plus the outcome of every ``<delimiter> in <value>`` test decided on the path
+    (key ``('#in', delimiter, value)`` -> bool).  Tests are evaluated semantically: ``in`` / ``not in`` / ``not (...)``
+    in either branch order, as an ``if`` or as the test of a conditional expression, all record the same fact.
+    """
 
     def __init__(self, f, prog):
         super().__init__()
         self.f = f
         self.prog = prog
         self.rets = set()
-        self.tests = []
         self.odd = []
+
+    def _membership(self, e, st):
+        """``e`` as a membership test -> (fact key, polarity) or None"""
+        pol = True
+        while isinstance(e, ast.UnaryOp) and isinstance(e.op, ast.Not):
+            e, pol = e.operand, not pol
+        if isinstance(e, ast.Compare) and len(e.ops) == 1 and isinstance(e.ops[0], (ast.In, ast.NotIn)):
+            d = const_str(self.prog, e.left, self.f)
+            if d is not None:
+                if isinstance(e.ops[0], ast.NotIn):
+                    pol = not pol
+                return ('#in', d, self._val(e.comparators[0], st)), pol
+        return None
+
+    def _truth(self, e, st):
+        """truth of a test under the facts of the state: True / False / None (not decided)"""
+        if isinstance(e, ast.Constant):
+            return bool(e.value)
+        m = self._membership(e, st)
+        if m is None:
+            return None
+        known = dict(st).get(m[0])
+        return None if known is None else (known == m[1])
 
     def _val(self, e, st):
         env = dict(st)
@@ -2203,6 +2230,11 @@ class _Dissect(Flow):
             return env.get(e.id, ('?', e.id))
         if isinstance(e, ast.Constant) and e.value is None:
             return ('none',)
+        if isinstance(e, ast.IfExp):
+            t = self._truth(e.test, st)
+            if t is not None:
+                return self._val(e.body if t else e.orelse, st)
+            return ('?', norm(e)[:30])
         if isinstance(e, ast.Call) and len(e.args) == 1 and not e.keywords:
             inner = self._val(e.args[0], st)
             if isinstance(e.func, ast.Name) and e.func.id == 'int':
@@ -2217,11 +2249,15 @@ class _Dissect(Flow):
         return ('?', norm(e)[:30])
 
     def on_test(self, e, st):
-        if isinstance(e, ast.Compare) and len(e.ops) == 1 and isinstance(e.ops[0], ast.In) and const_str(self.prog, e.left, self.f) is not None:
-            self.tests.append((const_str(self.prog, e.left, self.f), self._val(e.comparators[0], st)))
-        else:
+        m = self._membership(e, st)
+        if m is None:
             self.odd.append(e)
-        return (st,), (st,)
+            return (st,), (st,)
+        key, pol = m
+        known = dict(st).get(key)
+        if known is not None:  # decided earlier on this path: only the feasible branch
+            return ((st,), ()) if known == pol else ((), (st,))
+        return (st | {(key, pol)},), (st | {(key, not pol)},)
 
     def on_stmt(self, s, st):
         if isinstance(s, ast.Assign) and len(s.targets) == 1:
@@ -2239,15 +2275,21 @@ class _Dissect(Flow):
         return (st,)
 
     def on_return(self, node, st):
+        facts = frozenset((k[1:], v) for k, v in st if isinstance(k, tuple) and k[0] == '#in')
         if isinstance(node.value, ast.Tuple):
-            self.rets.add(tuple(self._val(x, st) for x in node.value.elts))
+            self.rets.add((tuple(self._val(x, st) for x in node.value.elts), facts))
         else:
             self.odd.append(node)
         return (st,)
 
 
 def dissect_agreement(M):
-    """-> (ok, message): dissect is the inverse of the key grammar"""
+    """-> (ok, message): dissect is the inverse of the key grammar
+
+    Every return of dissect is judged under the membership facts of its path: a key that contains the parent delimiter
+    yields int(<text before it>) and continues with the text after it, otherwise the parent is None; the same for the
+    version delimiter on what is left.  All four combinations must be returned.
+    """
     prog = M.prog
     if M.dissect_q is None:
         return None, 'util.dissect does not exist (no dissected-field comparison can be accepted)'
@@ -2260,23 +2302,34 @@ def dissect_agreement(M):
     dp, dv = M.delims['parent'], M.delims['version']
     K = ('key',)
     rest = ('part', dp, 1, K)
-    want = set()
-    for hp in (False, True):
-        for hv in (False, True):
-            body = rest if hp else K
-            want.add((
-                ('int', ('part', dp, 0, K)) if hp else ('none',),
-                ('part', dv, 0, body) if hv else body,
-                ('wrap', ('part', dv, 1, body)) if hv else ('none',),
-            ))
-    if fl.rets != want:
-        extra = sorted(map(str, fl.rets - want))[:2]
-        missing = sorted(map(str, want - fl.rets))[:2]
-        return False, (f'dissect does not return (int(parent), name, version) split on {dp!r} then {dv!r}: '
-                       f'unexpected {extra}, missing {missing}')
-    tl = {t for t, _v in fl.tests}
+
+    def expected(hp, hv):
+        body = rest if hp else K
+        return (
+            ('int', ('part', dp, 0, K)) if hp else ('none',),
+            ('part', dv, 0, body) if hv else body,
+            ('wrap', ('part', dv, 1, body)) if hv else ('none',),
+        )
+
+    tl = {d for _vals, facts in fl.rets for (d, _subj), _b in facts}
     if tl != {dp, dv}:
         return False, f'dissect tests for {sorted(tl)} but construct writes {sorted({dp, dv})}'
+    seen = set()
+    for vals, facts in sorted(fl.rets, key=str):
+        fd = dict(facts)
+        hp = fd.get((dp, K))
+        hv = None if hp is None else fd.get((dv, rest if hp else K))
+        if hp is None or hv is None:
+            return False, (f'dissect returns {vals} without having decided whether '
+                           f'{dp if hp is None else dv!r} is in the {"key" if hp is None else "rest of the key"}')
+        seen.add((hp, hv))
+        if vals != expected(hp, hv):
+            return False, (f'dissect does not return (int(parent), name, version) split on {dp!r} then {dv!r}: for a key '
+                           f'{"with" if hp else "without"} parent part and {"with" if hv else "without"} version part it returns '
+                           f'{vals}, expected {expected(hp, hv)}')
+    if len(seen) != 4:
+        missing = sorted({(a, b) for a in (False, True) for b in (False, True)} - seen)
+        return False, f'dissect does not return for every key form: (has parent, has version) = {missing} never reach a return'
     return True, f'dissect splits on {dp!r} (parent converted with int) then {dv!r}: the inverse of the derived key grammar'
 
 
@@ -3372,6 +3425,17 @@ VARIANTS = [
     V('trace: selection without the parent', 'B', I, 'trace', 'util.subset(DBI().tables.alg, algn, [tskid])', 'util.subset(DBI().tables.alg, algn)', 'R-C08-3'),
     V('dissect keeps the parent as text', 'B', U, 'dissect', 'parent = int(parent)', 'parent = parent', 'R-C08-3'),
     V('construct writes another delimiter than dissect reads', 'B', U, 'construct', "':parent___' + name", "':parent__' + name", 'R-C08-3'),
+    V('dissect: parent test negated, branches kept (splits keys without the delimiter)', 'B', U, 'dissect',
+      "if ':parent___' in name:", "if ':parent___' not in name:", 'R-C08-3'),
+    V('dissect: version dropped when present', 'B', U, 'dissect', 'ver = LocalVersion(ver)',
+      "ver = None if '___version:' in name else LocalVersion(ver)", 'R-C08-3'),
+    V('dissect: negated tests with swapped branches', 'N', U, 'dissect',
+      "if ':parent___' in name:\n        parent, name = name.split(':parent___')\n        parent = int(parent)\n    else:\n        parent = None",
+      "if not ':parent___' in name:\n        parent = None\n    else:\n        parent, name = name.split(':parent___')\n        parent = int(parent)", None),
+    V('dissect: conditional expressions with swapped arms, default before the test', 'N', U, 'dissect',
+      "if ':parent___' in name:\n        parent, name = name.split(':parent___')\n        parent = int(parent)\n    else:\n        parent = None",
+      "parent = None if ':parent___' not in name else int(name.split(':parent___')[0])\n"
+      "    name = name.split(':parent___')[1] if ':parent___' in name else name", None),
     V('worm: prefix match on a field', 'B', WM, 'consume', 'i == e', 'str(i).startswith(str(e))', 'R-C08-4'),
     V('worm: any field suffices', 'B', WM, 'consume', 'if all(((e is None', 'if any(((e is None', 'R-C08-4'),
     V('worm: removes by the request, not the key', 'B', WM, 'consume', 'dawgie.db.remove(*ids)', 'dawgie.db.remove(*req)', 'R-C08-4'),
